@@ -251,8 +251,9 @@ theorem calcIdxSentinels_safe (divIdx s : Nat) (dn : List DivNode) :
 
 theorem wrapSub_self (m : Nat) : wrapSub m m = 0 := by
   unfold wrapSub
-  have : m % W + W - m % W = W := by omega
-  rw [this, Nat.mod_self]
+  generalize W = w
+  rw [Nat.add_sub_cancel_left]
+  exact Nat.mod_self w
 
 theorem asU32_of_lt (m : Nat) (h : m < 4294967296) : asU32 m = m := by
   unfold asU32; exact Nat.mod_eq_of_lt h
